@@ -56,6 +56,17 @@ def reducedOp : Op
     some [ofFlts (reducedParams mask vals free)]
   | _ => none
 
+/-- `C06.reduced.history <mask> <values> <hist> <free>` → the vector the wrapped model receives in a call
+    with `free` after the calls of `hist` on the same reduced model -/
+def reducedHistoryOp : Op
+  | [mv, vv, hv, fv] => do
+    let mask ← mv.list? >>= (·.mapM Val.bool?)
+    let vals ← vv.flts?
+    let hist ← hv.fltss?
+    let free ← fv.flts?
+    some [ofFlts (reducedCall mask vals hist free)]
+  | _ => none
+
 def subOf : Val → Option SubModel
   | .list [.str k, nd, nc, selv] => do
     let kind ← kindOf k
@@ -227,7 +238,7 @@ def popScoreOp : Op
   | _ => none
 
 def ops : List (String × Op) :=
-  [("C06.em.ndraws", emNDrawsOp), ("C06.em.sample", emSampleOp), ("C06.reduced", reducedOp),
+  [("C06.em.ndraws", emNDrawsOp), ("C06.em.sample", emSampleOp), ("C06.reduced", reducedOp), ("C06.reduced.history", reducedHistoryOp),
    ("C06.pop.plan", popPlanOp), ("C06.pop.sample", popSampleOp), ("C06.pop.psi", popPsiOp),
    ("C06.moments", momentsOp), ("C06.pop.score", popScoreOp)]
 
